@@ -182,11 +182,8 @@ Proof.
     + unfold slot_val. simpl. rewrite Hl. reflexivity.
 Qed.
 
-Lemma xflt_canon : forall q, scanon (if Z.eqb (q mod 4) 0 then SInt (q / 4) else SReal q) = CNum q.
-Proof.
-  intros q. destruct (Z.eqb (q mod 4) 0) eqn:E; cbn [scanon]. 2: reflexivity.
-  apply Z.eqb_eq in E. f_equal. pose proof (Z.div_mod q 4 ltac:(lia)) as Hd. lia.
-Qed.
+Lemma xflt_canon : forall q, scanon (SReal q) = CNum q.
+Proof. reflexivity. Qed.
 
 Definition is_var (o : operand) (n : str) : Prop := o = OVar n.
 
@@ -268,33 +265,23 @@ Proof.
       constructor. cbn. rewrite Ed. repeat split. apply (Hs vf ps binds); assumption.
 Qed.
 
-Lemma val_eqv_refl : forall v, val_eqv v v = true.
-Proof.
-  intros v. destruct v as [|b| | |s]; simpl; try reflexivity.
-  destruct b; reflexivity. apply Z.eqb_refl. apply Z.eqb_refl. apply str_eqb_refl.
-Qed.
-
-(* a selected value as the statement computes it, against the field value of the language *)
+(* a selected value as the statement computes it is the field value of the language *)
 Lemma sel_value_sem : forall m binds r s,
   sdefault_ok binds (default_of m (ss_field s)) (ss_default s) ->
   (forall b, default_of m (ss_field s) = Some (VBool b) -> nth (ss_field s) r VNull <> VNull) ->
-  val_eqv (field_value m r (ss_field s)) (sel_value binds r s) = true /\
-  scanon (to_sql (sel_value binds r s)) = vcanon (field_value m r (ss_field s)).
+  sel_value binds r s = field_value m r (ss_field s).
 Proof.
   intros m binds r s Hd Hb. rewrite field_value_nth. unfold sel_value.
   destruct (nth (ss_field s) r VNull) eqn:En.
-  2-5: (destruct (ss_default s); split; try apply val_eqv_refl; apply scanon_to_sql).
+  2-5: (destruct (ss_default s); reflexivity).
   destruct (default_of m (ss_field s)) as [d|] eqn:Ed; simpl in Hd.
   - destruct d as [|b|z|x|t].
-    + rewrite Hd. split; reflexivity.
+    + rewrite Hd. reflexivity.
     + exfalso. eapply Hb; eauto.
-    + rewrite Hd. split. simpl. apply Z.eqb_refl. reflexivity.
-    + rewrite Hd. cbn [sx_eval]. destruct (Z.eqb (x mod 4) 0) eqn:E; cbn [of_sql to_sql scanon vcanon val_eqv num4 opt_eqb].
-      * apply Z.eqb_eq in E. pose proof (Z.div_mod x 4 ltac:(lia)) as Hdm. split.
-        apply Z.eqb_eq. lia. f_equal. lia.
-      * split. apply Z.eqb_refl. reflexivity.
-    + destruct Hd as (i & -> & Hn). cbn [sx_eval]. rewrite Hn. split. simpl. apply str_eqb_refl. reflexivity.
-  - rewrite Hd. split; reflexivity.
+    + rewrite Hd. reflexivity.
+    + rewrite Hd. reflexivity.
+    + destruct Hd as (i & -> & Hn). cbn [sx_eval]. rewrite Hn. reflexivity.
+  - rewrite Hd. reflexivity.
 Qed.
 
 Lemma out_alias_sem : forall m binds r sel ss,
@@ -307,7 +294,7 @@ Proof.
   intros m binds r sel ss H. induction H as [|sf s sel ss (Hf & _ & Hd) Hrest IH]; intros Hb k.
   - destruct k; reflexivity.
   - destruct k; simpl.
-    + rewrite <- Hf. apply sel_value_sem. rewrite Hf. exact Hd.
+    + rewrite <- Hf. rewrite (sel_value_sem m binds r s). apply scanon_to_sql. rewrite Hf. exact Hd.
       intros b Hdb. rewrite Hf in *. eapply Hb; eauto. left. reflexivity.
     + apply IH. intros sf' b Hin. apply Hb. right. exact Hin.
 Qed.
@@ -350,7 +337,7 @@ Qed.
 Lemma default_sx_canon : forall binds r out d, scanon (sx_eval binds r out (default_sx d)) = vcanon d.
 Proof.
   intros binds r out d. destruct d as [|b| | |]; cbn [default_sx sx_eval]; try reflexivity.
-  destruct b; reflexivity. apply xflt_canon.
+  destruct b; reflexivity.
 Qed.
 
 Lemma ref_value_name : forall m q r i, ref_value m q r (FByName i) = field_value m r i.
